@@ -410,6 +410,8 @@ def check_mcmc(ctx):
 
 
 def run(ctx):
+    from .C05 import check_mutable_defaults
+    check_mutable_defaults(ctx, "C08-STATE")
     res = check_lock(ctx)
     if res:
         fn, loop, merged = res
